@@ -138,4 +138,7 @@ C14 = [
                         ("import", "one-segment module path"), ("docstring", "one-letter text"))
 ]
 
+# the editor half of C11 ("rendering it for the editor never fails", ranges well-formed) is the span obligation of C19
+C11 += [h for h in C19 if h.name in ("c19_span_n4", "c19_span_n6")]
+
 PROPS.update({"C19": C19, "C07": C07, "C11": C11, "C14": C14})
